@@ -59,22 +59,27 @@ def _run_harness(crate_dir, target_dir, h, extra=None, timeout=1800, playback=Fa
         for fm in re.finditer(r"Failed Checks: (.*)\n\s*File: \"([^\"]+)\", line (\d+), in (\S+)", out):
             fails.append({"description": fm.group(1), "file": fm.group(2), "line": int(fm.group(3)), "function": fm.group(4)})
         res["failed_checks"] = fails
-        if any("unwinding assertion" in f["description"] for f in fails) and all("unwinding assertion" in f["description"] for f in fails):
+        if not fails:
+            # FAILED without a failed check: CBMC crashed / ran out of memory / hit an unsupported construct — a tool limit, not a verdict
+            res["status"] = "undecided"
+            why = [l.strip() for l in out.splitlines() if "CBMC" in l or "unsupported" in l.lower()][:3]
+            res["reason"] = "kani reported FAILED without any failed check (tool limit): " + " | ".join(why)
+        elif any("unwinding assertion" in f["description"] for f in fails) and all("unwinding assertion" in f["description"] for f in fails):
             res["status"] = "undecided"
             res["reason"] = "only unwinding assertions failed: the unwind bound is too small for this code (not a property violation)"
     else:
         res["status"] = "undecided"
-        errs = [l for l in out.splitlines() if l.startswith("error")][:4]
+        errs = [l for l in out.splitlines() if l.startswith("error")][:6]
         res["reason"] = "kani did not report a verification result: " + (" | ".join(errs) if errs else out[-300:].replace("\n", " "))
     return res, out
 
 
-def render_crate(here, u):
+def render_crate(here, u, autoimport=()):
     src_dir = os.path.join(here, u["crate"])
     d = os.path.join(here, "build", "kani", u["name"])
     os.makedirs(os.path.join(d, "src"), exist_ok=True)
     os.makedirs(os.path.join(d, ".cargo"), exist_ok=True)
-    report, linemap = extract.render(os.path.join(src_dir, "main.rs.tmpl"), os.path.join(d, "src", "main.rs"))
+    report, linemap = extract.render(os.path.join(src_dir, "main.rs.tmpl"), os.path.join(d, "src", "main.rs"), autoimport=autoimport)
     shutil.copy(os.path.join(src_dir, "Cargo.toml"), os.path.join(d, "Cargo.toml"))
     if os.path.exists("/repo/Cargo.lock") and u.get("use_repo_lock", False):
         shutil.copy("/repo/Cargo.lock", os.path.join(d, "Cargo.lock"))
@@ -102,6 +107,19 @@ def run_unit(prop, u, tier, ctx, here):
     results = []
     outs = {}
     r0, o0 = _run_harness(d, target, hs[0], timeout=u.get("timeout", 1500))
+    # helper functions called by an extracted fragment but defined elsewhere in the same file: import them and retry
+    tries = 0
+    imported = []
+    while r0["status"] == "undecided" and tries < 3:
+        missing = [m for m in re.findall(r"cannot find function `(\w+)` in this scope", o0) if m not in imported]
+        if not missing:
+            break
+        imported += missing
+        d, report, linemap = render_crate(here, u, autoimport=tuple(imported))
+        rec["extraction"] = report
+        gen_lines = open(os.path.join(d, "src", "main.rs")).read().split("\n")
+        r0, o0 = _run_harness(d, target, hs[0], timeout=u.get("timeout", 1500))
+        tries += 1
     results.append(r0)
     outs[hs[0]["name"]] = o0
     if r0["status"] == "undecided" and "did not report" in r0.get("reason", ""):
@@ -154,9 +172,9 @@ def run_unit(prop, u, tier, ctx, here):
     rec["failures"] = failures
     if failures:
         rec["status"] = "failed"
-    elif any(r["status"] == "undecided" for r in results):
+    elif any(r["status"] != "verified" for r in results):
         rec["status"] = "undecided"
-        rec["reason"] = "; ".join("%s: %s" % (r["name"], r.get("reason")) for r in results if r["status"] == "undecided")
+        rec["reason"] = "; ".join("%s: %s" % (r["name"], r.get("reason") or r["status"]) for r in results if r["status"] != "verified")
     else:
         rec["status"] = "verified"
     return rec
